@@ -174,6 +174,48 @@ def run(chk):
         top_adds = [s for s in loop.body if add_call(s)]
         chk.ob("R07.2", "%s: each digit starts with exactly one doubling; additions only inside the digit branches" % q, dbl and n_dbl == 1 and not top_adds, loc=L(loop), key="C07|R07.2|%s" % q,
                detail="%s: doubling first=%s, doublings in loop=%d, unconditional adds=%d" % (q, dbl, n_dbl, len(top_adds)))
+    # accumulators start at the identity encoding (0, 0, 1) and every digit of the recoding is consumed
+    for q in ("__mul__", "mul_add", "_mul_precompute"):
+        f = p.func("ellipticcurve:PointJacobi." + q)
+        loop = [n for n in ast.walk(f.node) if isinstance(n, ast.For)][-1]
+        first = loop.body[0] if q != "_mul_precompute" else None
+        acc = None
+        for s_ in loop.body:
+            c_ = add_call(s_) if isinstance(s_, ast.Assign) else None
+            for n_ in ast.walk(s_):
+                if isinstance(n_, ast.Assign) and isinstance(n_.targets[0], ast.Tuple) and isinstance(n_.value, ast.Call) and id(n_.value) in calls_by_node and calls_by_node[id(n_.value)][2] in ("_add", "_double"):
+                    acc = [t.id for t in n_.targets[0].elts if isinstance(t, ast.Name)]
+        inits = []
+        if acc:
+            for n_ in ast.walk(f.node):
+                if isinstance(n_, ast.Assign) and n_.lineno < loop.lineno and isinstance(n_.targets[0], ast.Tuple) and isinstance(n_.value, ast.Tuple):
+                    names_ = [t.id if isinstance(t, ast.Name) else None for t in n_.targets[0].elts]
+                    if names_[:3] == acc[:3]:
+                        inits.append([getattr(v, "value", None) for v in n_.value.elts[:3]])
+        chk.ob("R07.2", "%s: the accumulator starts as the identity (0, 0, 1)" % q, inits == [[0, 0, 1]], loc=L(loop), key="C07|R07.2|init|%s" % q, detail="%s initialises its accumulator with %s" % (q, inits))
+    f = p.func("ellipticcurve:PointJacobi.__mul__")
+    loop = [n for n in ast.walk(f.node) if isinstance(n, ast.For)][-1]
+    okit = norm_text(loop.iter) == "reversed(self._naf(%s))" % f.params[1]
+    chk.ob("R07.2", "__mul__ iterates over every digit of reversed(self._naf(k))", okit, loc=L(loop), key="C07|R07.2|digits|__mul__", detail="__mul__ iterates over `%s` (a digit of the recoding may be skipped)" % norm_text(loop.iter))
+    f = p.func("ellipticcurve:PointJacobi.mul_add")
+    loop = [n for n in ast.walk(f.node) if isinstance(n, ast.For)][-1]
+    nafs = {norm_text(n_.targets[0]): norm_text(n_.value) for n_ in ast.walk(f.node) if isinstance(n_, ast.Assign) and isinstance(n_.value, ast.Call) and "_naf(" in norm_text(n_.value) and isinstance(n_.targets[0], ast.Name)}
+    okit = isinstance(loop.iter, ast.Call) and norm_text(loop.iter.func) == "zip" and [norm_text(a_) for a_ in loop.iter.args] == list(nafs) and \
+        sorted(nafs.values()) == sorted(["list(reversed(self._naf(int(%s))))" % f.params[1], "list(reversed(self._naf(int(%s))))" % f.params[3]])
+    chk.ob("R07.2", "mul_add iterates over zip of the two complete reversed NAF lists", okit, loc=L(loop), key="C07|R07.2|digits|mul_add", detail="mul_add iterates over `%s` with lists %s" % (norm_text(loop.iter), nafs))
+    # table entries are affine coordinates (they are added with Z = 1)
+    f = p.func("ellipticcurve:PointJacobi._maybe_precompute")
+    apps = [n_ for n_ in ast.walk(f.node) if isinstance(n_, ast.Call) and isinstance(n_.func, ast.Attribute) and n_.func.attr == "append"]
+    okaff = bool(apps)
+    for a_ in apps:
+        e = a_.args[0] if a_.args else None
+        okaff &= isinstance(e, ast.Tuple) and len(e.elts) == 2 and all(isinstance(x, ast.Call) and isinstance(x.func, ast.Attribute) and not x.args for x in e.elts) and \
+            [x.func.attr for x in e.elts] == ["x", "y"] and norm_text(e.elts[0].func.value) == norm_text(e.elts[1].func.value)
+    chk.ob("R07.2", "every table entry is (P.x(), P.y()) of one point: affine coordinates, as _mul_precompute adds them with Z = 1 [%d append(s)]" % len(apps), okaff, loc=f.qname, key="C07|R07.2|table-affine",
+           detail="a table entry is not the affine (x(), y()) pair of a point")
+    tbl_adds = [c for c in M.call_args if c[0].node.name == "_mul_precompute" and c[2] == "_add"]
+    okz1 = bool(tbl_adds) and all(len(c[3]) >= 6 and c[3][5].const == 1 for c in tbl_adds)
+    chk.ob("R07.2", "_mul_precompute adds table entries with Z = 1", okz1, loc="ellipticcurve:PointJacobi._mul_precompute", key="C07|R07.2|table-z1", detail="table entries are not added with the literal Z = 1")
     f = p.func("ellipticcurve:PointJacobi.mul_add")
     pad = False
     for n in ast.walk(f.node):
